@@ -5,6 +5,10 @@ import json, sys
 ALL = ["C%02d" % i for i in range(1, 21)]
 
 CHECKS = {
+ "C03": dict(level="exploration", design="§3 C03, §0.1 E1",
+   technique="stateless choice-sequence exploration (E1): a time sweep (every millisecond of [0,3s), every frame/tick count in [0,1000) under 10 frame/tick rate pairs in every exact time-expression syntax), full products for line shapes x br placements, all 21 style forests on <=3 nodes x regions x references, attribute subsets x namespace variants, plus the deviation ball; real TTML reader/writer judged against an independent encoding/xml token-walk decoder with exact rational instants",
+   text="Every (model, rendering) in the sweep, products and ball is rendered and read by ReadFromTTML (instants as exact rationals, lines of styled characters, style/region tables and inheritance, title/copyright/language); every representable model is written by WriteToTTML with each indent option and decoded by the library and by the independent decoder.",
+   note="Trusted: Go toolchain/stdlib (encoding/xml), engine/ref/ttml. Nested spans, raw newlines in character data, dur=, >3-digit fractions are outside the generator (DESIGN domain notes)."),
  "C02": dict(level="exploration", design="§3 C02, §0.1 E1",
    technique="stateless choice-sequence exploration (E1): eight full products of small grammars (runs, lines, tag leakage across cues, all 32 settings subsets, regions x 32 attribute subsets, STYLE/timestamp-map/header forms, arbitrary tag stacks) plus deviation balls (B=3 quick, B=4 thorough) over all model and rendering choice points, on the real WebVTT reader/writer, judged against an independent reference codec",
    text="Every (model, rendering) in the products and balls is rendered and read by ReadFromWebVTT (denotation: times, identifiers, comments, regions, settings, voices, tag stacks per styled character, inline timestamps, STYLE lines, timestamp map); every representable model is written by WriteToWebVTT and decoded by the library and by an independent block-level decoder that also checks consecutive numbering and region-defined-before-use.",
